@@ -24,6 +24,15 @@ CHECKS = {
          'Counts after an AtLeastOnce restart are not judged. The concurrent clause runs under the H2 token scheduler (cfg walrus_verif).', '§5 C15'),
 }
 CHECKS.update({
+ 'C22': ('E7', 'exploration', 'deterministic simulation testing: generated client programs x generated task schedules on a single-threaded executor (stand-in tokio with virtual clock, linearisable stand-in for the Raft metadata log with schedule-chosen apply lag), exactly-once / order oracle over all GET responses',
+         'The repository\'s controller, bucket (on the real walrus-rust engine), client listener, lease loop and monitor run unmodified; every await is a scheduling point decided by generated schedule bytes. 1-3 nodes, rollover thresholds 1-4, 2-4 lock-step clients; afterwards the cluster quiesces and every topic is drained through a generated node. Every PUT answered OK must be returned by exactly one GET, in acknowledgement order per producer for GETs ordered in real time.',
+         'Consensus is assumed correct (stand-in octopii = linearisable in-order log). Open finding C22-rollover-count-race is probed on every run; while it is open, cases outside the fenced shape (single node, one producer per topic, no Monitor) run with a rollover threshold that is never reached.', '§5 C22'),
+ 'C23': ('E7', 'exploration', 'deterministic simulation testing with a per-step invariant over observed segment sizes (fencing oracle)',
+         'Same simulated cluster runs as C22; after every scheduler step the size of every (topic, segment) log on every node is read through the public Storage API: it must not grow on a node after that node applied the rollover sealing the segment, nor while the node\'s applied metadata assigns the segment to another node.',
+         'Open finding C23-lease-check-not-atomic-with-write is probed on every run; its trigger (an append in flight while a rollover of that topic is applied on the same node) is excluded by the same generator rule as for C22.', '§5 C23'),
+ 'C24': ('E7', 'exploration', 'grammar-based generation of client byte streams (valid, malformed and oversized frames in generated chunkings) against the real listener on an in-memory duplex, response-count / response-class / payload round-trip oracle',
+         'Generated frame streams are written to a connection accepted by start_client_listener; exactly one response per frame in order, each of the class its frame demands, and every GET returns the oldest unread PUT payload byte-identically modulo trailing whitespace.',
+         'Single node and single connection (FIFO expectation). Stand-in tokio TcpStream.', '§5 C24'),
  'C18': ('E6', 'exploration', 'exhaustive bounded enumeration of command sequences (prefix-shared tree over a 36-command alphabet) plus proptest sequences with invalid and mutated encodings, invariant oracle with sealed-segment history',
          'metadata.rs is included unmodified and driven in-process: every command sequence up to length 5 (quick) / 6 (thorough) over a 36-command alphabet, generated sequences of up to 400 commands with arbitrary names and counts, and raw / mutated byte strings; after every command the invariants of the property are checked and an Err must leave the state unchanged.',
          'Decoding uses the stand-in bincode codec (/verif/shims/bincode, wire format of bincode 1.3 defaults). Counts above 2^32 only arise through mutated encodings.', '§5 C18'),
@@ -105,6 +114,7 @@ m = {
  },
  'engines': [
    {'name': 'E1', 'path': 'harness/src/{absop,interp,model}.rs', 'serves_properties': ['C01','C02','C03','C06','C12','C14','C15','C16','C17'], 'kind_free_text': 'sequential model-based search: proptest-generated abstract histories, interpreted against a FIFO reference model, executed in child processes on the real engine'},
+   {'name': 'E7', 'path': 'dist/src/{sim,simdrv}.rs, shims/{tokio,octopii,bincode}', 'serves_properties': ['C22','C23','C24'], 'kind_free_text': 'deterministic cluster simulation: distributed-walrus sources unmodified on a stand-in single-threaded tokio with virtual time and a linearisable stand-in for octopii; one child process per case'},
    {'name': 'E6', 'path': 'dist/src/meta.rs', 'serves_properties': ['C18','C20','C25'], 'kind_free_text': 'in-process checks of distributed-walrus metadata.rs and controller/types.rs (#[path]-included unmodified, compiled against stand-in crates under /verif/shims)'},
    {'name': 'E4', 'path': 'harness/src/props/multi.rs', 'serves_properties': ['C13'], 'kind_free_text': 'multi-instance interpreter: one child process, several Walrus instances, one reference model per instance'},
    {'name': 'E3', 'path': 'harness/src/props/conc.rs, harness/src/conc.rs', 'serves_properties': ['C05','C15'], 'kind_free_text': 'schedule-controlled concurrency: thread programs executed under the H2 token scheduler (cfg walrus_verif), schedules generated by proptest or enumerated with a preemption bound'},
